@@ -17,7 +17,7 @@ CATEGORY = {   # form -> node category it creates (for the coverage report)
     "mul": "Mul", "muleq": "Mul_assign", "ne": "Not_equal", "or": "Or", "add": "Plus", "addeq": "Plus_assign", "scope": "Scope_ref", "shr": "Rshift",
     "shreq": "Rshift_assign", "member_init": "Member_init", "lit": "Literal", "id": "Id_expr", "sym": "Symbol", "this": "Symbol", "encl": "Enclosure",
     "list": "Expr_list", "call": "Call", "cond": "Conditional", "cast": "Cast", "construct": "Construction", "ptr": "Pointer", "ref": "Reference",
-    "rref": "Rvalue_reference", "const": "Qualified", "volatile": "Qualified", "cv": "Qualified", "array": "Array", "fn": "Function",
+    "rref": "Rvalue_reference", "const": "Qualified", "volatile": "Qualified", "cv": "Qualified", "array": "Array", "fn": "Function", "fnx": "Function",
     "product": "Product", "sum": "Sum", "ptm": "Ptr_to_member", "decltype": "Decltype", "astype": "As_type", "named": "As_type",
     "expr": "Expr_stmt", "return": "Return", "goto": "Goto", "break": "Break", "continue": "Continue", "if": "If", "ife": "If", "while": "While",
     "do": "Do", "switch": "Switch", "for": "For", "labeled": "Labeled_stmt", "block": "Block", "try": "Block", "catch": "Handler",
@@ -70,6 +70,10 @@ class Gen:
         if f == "array":
             return "(array %s %s)" % (self.type(depth + 1), self.expr(depth + 2))
         if f == "fn":
+            if r.random() < 0.5:
+                # function types that differ only in their exception specification (few shapes, so that they meet in one unit)
+                self.use("fnx")
+                return "(fnx %s (id %s bool) %s)" % (r.choice(["int", "void"]), r.choice(["nx1", "nx2", "nx3"]), r.choice(["", "int", "int char"]))
             return "(fn %s)" % " ".join(self.type(depth + 1) for _ in range(r.randrange(1, 4)))
         if f == "product":
             return "(ptr (fn int %s))" % " ".join(self.type(depth + 1) for _ in range(r.randrange(0, 3)))
